@@ -171,6 +171,25 @@ class Daemon:
             pass
         return rc
 
+    def locked_for_minutes(self):
+        """For a daemon that is still running long after it was told to stop: SIGQUIT makes the Go runtime print every
+        goroutine with the time it has been waiting. Returns the dump block of a goroutine that has been waiting for a
+        mutex for minutes inside fan2go code (a deadlock: nothing in fan2go holds a lock across a sleep or a command),
+        or '' when there is none (slow, not stuck)."""
+        before = len(self.output())
+        self.signal(signal.SIGQUIT)
+        self.wait(30)
+        dump = self.output()[before:]
+        for blk in dump.split("\n\n"):
+            head = blk.split("\n", 1)[0]
+            if " minutes]" not in head:
+                continue
+            if not ("sync.Mutex.Lock" in head or "sync.RWMutex" in head or "semacquire" in head):
+                continue
+            if "markusressel/fan2go/internal/" in blk.replace("/internal/verif/", "/VERIF/"):
+                return blk[:1800]
+        return ""
+
     def kill(self):
         try:
             self.p.kill()
